@@ -60,6 +60,9 @@ CORR = {"guard_rejection_accepted": corrupt_accept, "comfortable_swap_rejected":
 
 def dec_pair(rng):
     r = rng.random()
+    if r < 0.04:
+        # decimals beyond 18 exist (a native denom can be registered with any u8)
+        return rng.choice([(19, 0), (0, 19), (20, 0), (0, 20), (38, 18), (18, 39), (255, 0), (0, 255), (255, 255), (30, 30)])
     if r < 0.3:
         d = rng.randrange(0, 19)
         return d, d
@@ -71,14 +74,18 @@ def dec_pair(rng):
 def fn_case(rng):
     do, dr = dec_pair(rng)
     fo, fr = 10 ** max(dr - do, 0), 10 ** max(do - dr, 0)
-    s = rng.choice([0, 1, 10 ** 15, 10 ** 16, 5 * 10 ** 16, 5 * 10 ** 17, D - 1, D, D + 1, 2 * D, rng.randrange(0, D + 1)])
+    s = rng.choice([0, 1, 10 ** 15, 10 ** 16, 5 * 10 ** 16, 5 * 10 ** 17, D - 1, D, D + 1, 2 * D, rng.randrange(0, D + 1),
+                    rng.randrange(0, D + 1), rng.randrange(0, D + 1),
+                    # limits far above 100 %: multiples of 2^64 plus a remainder, anything up to u128::MAX
+                    (rng.randrange(1, 1 << 40) << 64) + rng.randrange(0, D + 1), rng.getrandbits(rng.randrange(61, 129)), M128])
     mode = rng.random()
     offer = gen.amount128(rng, rng.choice([8, 20, 40, 60, 64, 80, 100]))
     if mode < 0.5:
         # belief price, return placed around the two limits of the property
-        bp = rng.choice([1, 10 ** rng.randrange(0, 30), rng.getrandbits(rng.randrange(1, 100)) or 1, D, D + 1, D - 1])
+        bp = rng.choice([1, 10 ** rng.randrange(0, 30), rng.getrandbits(rng.randrange(1, 100)) or 1, D, D + 1, D - 1,
+                         rng.getrandbits(rng.randrange(100, 129)) or 1, M128, (1 << 64) + rng.randrange(0, D), 0])
         o1 = offer * fo
-        e_num, e_den = o1 * D, bp                    # e = e_num/e_den
+        e_num, e_den = o1 * D, max(bp, 1)            # e = e_num/e_den (bp = 0 is sent as it is; the oracle does not judge it)
         if rng.random() < 0.75:
             base = rng.choice([e_num * max(D - s, 0) // (e_den * D), max(e_num - e_den, 0) * max(D - s - 1, 0) // (e_den * D),
                                e_num // e_den])
